@@ -137,6 +137,12 @@ func runC17(o Opts) error {
 	s.Extra["mutation_steps"] = mutations
 	s.Extra["buffer_overwrites_checked"] = scribbles
 
+	// results must not alias the driver's receive buffers: discovery through the REAL driver, where several replies are
+	// collected before any is decoded (socket-level stream shared with C11)
+	if o.Replay == "" {
+		netC11(s, o.Tier)
+	}
+
 	// cloning: equal value, no shared mutable storage
 	for i := 0; i < 200; i++ {
 		doors := map[uint8]uint8{1: r.Byte(), 2: r.Byte(), 3: r.Byte(), 4: r.Byte()}
